@@ -178,10 +178,12 @@ impl Cfg {
     /// # Panics
     /// Panics if the configuration is invalid.
     pub fn max_frame_length(&self) -> u32 {
-        (MAX_MSG_LENGTH as u32)
-            .checked_add(self.chunk_size)
-            .expect("maximum frame size exceeds u32::MAX")
-            .max(HELLO_MSG_LENGTH as u32)
+        let data = (MAX_MSG_LENGTH as u32).checked_add(self.chunk_size).expect("maximum frame size exceeds u32::MAX");
+
+        // A port message carries a port number and an id (8 bytes) per 4 bytes of chunk size.
+        let ports = (MAX_MSG_LENGTH as u32).saturating_add(self.chunk_size.saturating_mul(2));
+
+        data.max(ports).max(HELLO_MSG_LENGTH as u32)
     }
 
     /// Configuration that is balanced between memory usage, latency and throughput.
